@@ -34,7 +34,7 @@ ASSUMPTIONS = [
     'resolver answers are functions of the name (one zone per evaluation); ask_dnsmx() returns entries with at least one address',
     'Received-SPF: heloname, HELO, sender and client address text are printable ASCII (sess_ok); they come from the session, not from DNS, except the reverse name when no HELO differs from it',
     'macro expansion (spf_makro and below) is covered by correspondence only: the theorems hold for every expander, the memory safety of the real one was exercised under ASan, not proved',
-    'fixes/C11-*.diff are applied: the unfixed tree violates the term limit (F-C11-1), crashes on F-C11-3..8 inputs and lets an IPv6 client match IPv4 MX addresses (F-C11-9) (corpus/C11/spf.cases)',
+    'fixes/C11-*.diff are applied: the unfixed tree violates the term limit (F-C11-1), crashes on F-C11-3..8 inputs and lets an IPv6 client match IPv4 MX addresses (F-C11-9); fixes/C11-14-ptr-case-insensitive.diff (ptr names compared with strcasecmp, F-C11-14) is NOT yet committed in /repo: it is applied in the scratch repo, the model follows it (corpus/C11/spf.cases)',
     'agreement with RFC 7208: the reference Spec/SpfRfc.v is hand-written from the RFC for macro-free records in its strict grammar; outside that fragment (syntax errors, macros, trailing dots, local or permanent resolver errors) results are not compared; five classes of deviation are known findings',
 ]
 
